@@ -37,6 +37,24 @@ chk("C11","proof","For all 255 DD/FD and 256 DDCB/FDCB opcodes the FD arm summar
 chk("C14","proof","R after each of the 1786 prefixes equals the reference (one step per opcode fetch, mod 128, bit 7 kept; 2 or 3 for DDCB/FDCB), I unchanged, LD A,I/A,R/I,A/R,A equal the reference; the opcode-fetch helper's own summary; every store to IR in the package lies below the decoder (who-may-write).",
     TB+ISA+CB, SUMM+"; R-WRITERS who-may-write scan", "DESIGN.md 5/C14")
 
+SHAPE = "Trusted base: go/packages+go/types+go/ssa (x/tools v0.29.0); the rule implementations in verif/internal/rules and verif/internal/checks (event recognisers, product exploration, dominance/guard rules), exercised by positive and negative control mutants"
+chk("C08","proof","Language inclusion of Run's CFG (projected on the recognised events: entry store HALT=false, cancellation test, static call of Step on the receiver, comma-ok lookup of PC in BreakPoints, test of HALT, classified returns) in  H0 (C?f S B?f H?f)* (C?t Rctx | C?f S B?t Rbp | C?f S B?f H?t Rnil); the loads feeding the tests execute after the Step of the same iteration; Run touches the CPU only through Step; only HALT arms set the indication and leave PC on the opcode (summary equality).",
+    SHAPE+"; C01/C06 for what one Step does"+CB, "CFG automaton (product construction over go/ssa blocks) + who-may-write + arm summaries", "DESIGN.md 5/C08")
+chk("C10","proof","Effect analysis: below Step/Run every store is rooted in a parameter or local cell, no package-level variable is written anywhere outside initialisation, external calls are a whitelist; the support of all 1786 arm summaries contains only States fields, device bytes and nil-ness of IO/handlers; States has no reference-typed component and CPU no unexported field. Hence determinism, snapshotability and isolation for every interleaving. The dynamic race detector is not used.",
+    TB+"; verif/internal/rules (effects, writers, types)"+CB+" log.Printf is process-global but internally locked and write-only.", "effect / who-may-write analysis over go/ssa, go/types queries, support (read-set) extraction from summaries", "DESIGN.md 5/C10")
+chk("C12","other","Complete enumeration of the 2231 SSA instructions below Step, Run and the bundled accessors that can panic in Go, each discharged by a guard-dominance / by-construction / by-type / precondition rule (incl. across the Step->processInterrupt call, with calls and aliasing stores as killers); acyclic loop-free call graph below Step; Run's exit on HALT; all rows of the request table (empty data, any IM) decided without panic; 856 unsupported prefixes shown to be consumed and logged only. Relative to the stated preconditions and the callback assumption, hence 'other'.",
+    SHAPE+"; summary engine for unsupported-opcode arms"+CB+" Preconditions: cpu != nil, cpu.Memory != nil, non-nil MapMemory, ctx != nil.", "panic-site enumeration with guard-dominance discharge rules; call-graph acyclicity; summaries of default arms", "DESIGN.md 5/C12")
+chk("C13","other","Structural: every loop iteration tests cancellation before its Step and a positive test returns the context's error with no further Step; the watcher goroutine captures only local cells, waits on the derived context, records the error then publishes with an atomic store; Run reads the flag only atomically and the error only after a positive test; the derived cancel is deferred before the goroutine starts and runs on every return; Run changes the CPU only by whole Steps. The real-time bound (scheduler latency) and races inside user callbacks are NOT decided.",
+    SHAPE+"; context and sync/atomic library semantics (Go memory model)", "CFG automaton + closure protocol/dominance checks over go/ssa", "DESIGN.md 5/C13")
+chk("C15","other","All eleven methods of DumbMemory/DumbIO/MapMemory summarised over symbolic slice/map handles (element/lookup/insert/delete as guarded events, loops by initial values + one body + back-edge values) and compared with the defining formulas for all addresses, values and lengths. The for-all-histories statement rests on Go's slice/map/copy/DeepEqual semantics, which are trusted.",
+    TB+"; Go slice/map/copy/range/reflect.DeepEqual semantics", "abstract interpretation with data-structure events; loop-body summaries", "DESIGN.md 5/C15")
+chk("C16","proof","GetFlag/SetFlag/ResetFlag/U16/SetU16 summarised with mask and value as atoms; results and post-states equal the defining per-bit formulas for every mask, F and register content, frame included; exported flag constants evaluated with go/types.",
+    TB, "abstract interpretation (summary equality), go/types constant evaluation", "DESIGN.md 5/C16")
+chk("C17","translation_validation","Exhaustive agreement of the one translation that exists (asm source -> image -> Go table): each of the 2x67 Go cases (go/types constant evaluation) equals byte for byte one record parsed from the shipped .cim image (and, thorough, the tstr/db/tmsg record of the .asm), nothing left over; images' sha256 pinned; no writer of the tables; tests range over exactly the tables unfiltered; Status.Bytes layout summarised. Iter.Status/Maxes (an algorithm) NOT decided.",
+    "Trusted base: go/types constant evaluation; the record parser in verif/internal/checks/c17.go; the pinned digests; verif/internal/isa for instruction lengths of the start sequence", "table agreement (go/types constants vs image records vs asm records) + AST/SSA who-may-write", "DESIGN.md 5/C17")
+chk("C19","other","run() of cim2bin and cim2cas interpreted (after package init) with the buffered writer as an event sink and a whitelist of library models; the ordered guarded write sequence equals the container layout as a function of offset, file length, name bytes and error results; the body is the very slice ReadFile returned. flag/os/bufio behaviour is trusted.",
+    TB+"; models of flag.*Var/Parse, os.ReadFile, os.Create, bufio.NewWriter, (*bufio.Writer).Write/WriteByte/Flush", "abstract interpretation with an event sink; canonical sequence comparison", "DESIGN.md 5/C19")
+
 m = {"version": 1,
      "setup_cmd": "GOFLAGS=-mod=mod GOPROXY=off GOSUMDB=off GOTOOLCHAIN=local GOWORK=off go build -o bin/z80verify ./cmd/z80verify",
      "hooks": {"guard": "verif", "enable": "none needed: the checks analyse /repo's sources (go/packages -> go/types -> go/ssa); nothing is compiled into a test binary, so there are no hooks",
